@@ -155,6 +155,13 @@ func getFieldDecoder(pInfo parentInfos, field reflect.StructField, index int, by
 	if len(fieldTagInfos) == 0 && !config.DisableDefaultTag {
 		fieldTagInfos, newParentJSONName = getDefaultFieldTags(field, pInfo.JSONName)
 	}
+	if field.Anonymous {
+		if _, ok := field.Tag.Lookup(jsonTag); !ok {
+			// the fields of an embedded struct are promoted: in the body they sit beside the
+			// outer struct's own fields, not under the embedded type's name
+			newParentJSONName = pInfo.JSONName
+		}
+	}
 	if len(byTag) != 0 {
 		fieldTagInfos = getFieldTagInfoByTag(field, byTag)
 	}
